@@ -1,10 +1,12 @@
 """C33 set_const recomputes derived model fields correctly.
 
-Space (enumerated): every DFS-ordered 3-body tree x a cyclic choice of joint-kind assignments, decorated with a fixed and a
-spatial tendon, connect / weld / joint equalities, position actuators with dampratio on a joint and a tendon, a motor, and a
+Space (enumerated): every DFS-ordered 3-body tree x a cyclic choice of joint-kind assignments, decorated with a tendon set
+(fixed tendons on every size-1 and size-2 subset of the scalar joints, listed forward and again reversed around a 3-site
+spatial tendon, plus two 2-site spatial tendons: 5..23 tendons, every pair of distinct dof supports in both id orders),
+connect / weld / joint equalities, position actuators with dampratio on a joint and a tendon, a motor, and a
 camera + light per body (all tracking modes); nworld=2 with every set_const-safe input field batched per world.
 Changes: every field of {body_mass, body_inertia, body_ipos, body_iquat, body_pos, body_quat, qpos0, qpos_spring,
-dof_armature, eq_data(connect anchor), eq_data(weld, relpose cleared), tendon_lengthspring(-1,-1), actuator kp, actuator dampratio}
+dof_armature, eq_data(connect anchor), eq_data(weld, relpose cleared), tendon_lengthspring(-1,-1 on alternate tendons), actuator kp, actuator dampratio}
 singly and in all pairs, with a different value in each world.
 Entry points: set_const(restore=True/False) on one model; set_const_fixed -> set_const_0 -> set_const_spring on a second model
 (must equal set_const bit for bit).
@@ -26,8 +28,8 @@ RULE = (
   "reference by >1e-6 relative in both worlds; distinct = hash of the spec"
 )
 BOUNDS = {
-  "quick": "5 trees x 3 joint assignments; 14 single changes + all 91 pairs; nworld=2",
-  "thorough": "5 trees x 5 joint assignments; 14 single changes + all 91 pairs; nworld=2",
+  "quick": "5 trees x 3 joint assignments; 14 single changes + all 91 pairs; nworld=2; per model all fixed-tendon supports of size<=2 over <=4 scalar joints in both id orders + 3 spatial tendons",
+  "thorough": "5 trees x 5 joint assignments; 14 single changes + all 91 pairs; nworld=2; per model all fixed-tendon supports of size<=2 over <=4 scalar joints in both id orders + 3 spatial tendons",
 }
 ASSUMPTIONS = [
   "MuJoCo C 3.13 mj_setConst is the reference; class f32dyn (2e-4 relative to the field scale): every derived field is behind a factor/solve",
@@ -48,6 +50,8 @@ CHANGES = (
   "body_mass", "body_inertia", "body_ipos", "body_iquat", "body_pos", "body_quat", "qpos0", "qpos_spring", "dof_armature",
   "eq_connect", "eq_weld", "tendon_lengthspring", "act_kp", "act_dampratio",
 )  # fmt: skip
+
+TEN_COEF = (0.8, -1.3, 1.7, -0.6)
 
 DERIVED = (
   "body_subtreemass", "dof_invweight0", "body_invweight0", "tendon_invweight0", "tendon_length0", "tendon_lengthspring",
@@ -95,12 +99,28 @@ def build_xml(scn):
     elif k == "hingeslide":
       scal += [f"j{i}", f"j{i}b"]
   s0, s1 = scal[0], scal[-1]
+  # Tendon set (ids in this order): a family of fixed tendons with every dof support of size 1 or 2 over the scalar joints,
+  # listed forward, then the 3-site spatial tendon t1, then the same family reversed - so for every two distinct supports A, B
+  # the model holds a tendon on A before one on B and one on B before one on A (neither nested in the other for |A|=|B|), and
+  # the all-dof spatial tendon sits both before and after narrower ones. Two 2-site spatial tendons open and close the list.
+  # t0 (stiffness, springlength, actuator a3) is the family member on (first, last) scalar joint.
+  supports = [(j,) for j in scal] + list(itertools.combinations(scal, 2))
+
+  def fixed(name, sup, k):
+    if sup == ((s0, s1) if s1 != s0 else (s0,)) and name.startswith("f"):
+      name, attrs, coefs = "t0", ' stiffness="3" springlength="0.1"', (0.8, -1.3)
+    else:
+      attrs = ("", ' stiffness="1.5"', "")[k % 3]
+      coefs = [TEN_COEF[(scal.index(j) + k) % 4] for j in sup]
+    return f'<fixed name="{name}"{attrs}>' + "".join(f'<joint joint="{j}" coef="{cf}"/>' for j, cf in zip(sup, coefs)) + "</fixed>"
+
   sections = (
     "<tendon>"
-    f'<fixed name="t0" stiffness="3" springlength="0.1"><joint joint="{s0}" coef="0.8"/>'
-    + (f'<joint joint="{s1}" coef="-1.3"/>' if s1 != s0 else "")
-    + "</fixed>"
-    '<spatial name="t1" stiffness="5"><site site="s1"/><site site="s2"/><site site="s3"/></spatial>'
+    '<spatial name="u0"><site site="s2"/><site site="s3"/></spatial>'
+    + "".join(fixed(f"f{k}", sup, k) for k, sup in enumerate(supports))
+    + '<spatial name="t1" stiffness="5"><site site="s1"/><site site="s2"/><site site="s3"/></spatial>'
+    + "".join(fixed(f"r{k}", sup, k + 1) for k, sup in reversed(list(enumerate(supports))))
+    + '<spatial name="u1" stiffness="2"><site site="s2"/><site site="s1"/></spatial>'
     "</tendon>"
     "<equality>"
     '<connect name="e0" body1="b1" body2="b3" anchor="0.1 -0.05 0.2"/>'
@@ -178,8 +198,8 @@ def apply_changes(mjm, changes, w, variant):
       mjm.eq_data[1, 0:3] = np.array([-0.05, 0.12, 0.07]) * s
       mjm.eq_data[1, 6:10] = 0.0 if w == 0 else np.array([0.5, -0.3, 0.7, 0.4])  # cleared (recompute) / user-set unnormalised (keep, normalise)
     elif c == "tendon_lengthspring":
-      mjm.tendon_lengthspring[0 if w == 0 else 1] = (-1.0, -1.0)
-      mjm.tendon_lengthspring[1 if w == 0 else 0] = (0.2 * s, 0.3 * s)
+      for t in range(mjm.ntendon):  # alternating by tendon id, opposite in the two worlds
+        mjm.tendon_lengthspring[t] = (-1.0, -1.0) if (t + w) % 2 == 0 else (0.2 * s, 0.3 * s)
     elif c == "act_kp":
       for a in (0, 1):
         kp = mjm.actuator_gainprm[a, 0] * s
